@@ -159,17 +159,22 @@ def imported_sources(module, seen=None):
     return seen
 
 
-def audit(module, names, workdir):
+def audit(modules, names, workdir):
     """#print axioms for each theorem; forbidden-token scan of every imported Asts source"""
+    if isinstance(modules, str):
+        modules = [modules]
     problems = []
-    srcs = imported_sources(module)
+    srcs = {}
+    for m in modules:
+        imported_sources(m, srcs)
     for m, p in srcs.items():
         hit = FORBIDDEN.search(strip_comments(open(p).read()))
         if hit:
             problems.append("forbidden token %r in %s" % (hit.group(0).strip(), m))
     audit_file = os.path.join(workdir, "audit.lean")
     with open(audit_file, "w") as f:
-        f.write("import %s\n" % module)
+        for m in modules:
+            f.write("import %s\n" % m)
         for n in names:
             f.write("#print axioms %s\n" % n)
     with Lock("lake"):
